@@ -23,8 +23,15 @@ MaxBad == 20
 
 Mismatch(e) ==
    IF e.ev \notin {"dec", "rt"} \/ e.pan # "" THEN "" ELSE
-   LET s == Schema(e.ty) p == Parse(e.b) pred == p.ok /\ Match(s, p.it, FALSE) IN
-   IF e.acc # pred THEN (IF e.acc THEN "accepted, design layer rejects" ELSE "rejected, design layer accepts")
+   LET s == Schema(e.ty)
+       d == ParseFirst(e.b)
+       p == IF d.ok /\ d.nx = Len(e.b) + 1 THEN d ELSE BadDec
+       pred == p.ok /\ Match(s, p.it, FALSE)
+       spred == d.ok /\ Match(s, d.it, FALSE)           \* stream form: the first item decides
+   IN
+   IF e.ev = "dec" /\ e.sacc # spred THEN (IF e.sacc THEN "stream: accepted, design layer rejects" ELSE "stream: rejected, design layer accepts")
+   ELSE IF e.ev = "dec" /\ e.sacc /\ e.scons # d.nx - 1 THEN "stream: consumed a different number of bytes than the first item has"
+   ELSE IF e.acc # pred THEN (IF e.acc THEN "accepted, design layer rejects" ELSE "rejected, design layer accepts")
    ELSE IF ~e.acc THEN ""
    ELSE IF e.ev = "rt" \/ e.same THEN
         (IF Defects(s, p.it) \subseteq {"EvidenceDoubleSign", "map_order"} THEN "" ELSE "same bytes, design layer predicts a different re-encoding")
